@@ -14,6 +14,9 @@ def check(ctx, rep):
         return
     K.rule_decoration(fm, rep, 'R1', kinds=False)
     K.rule_tag_plumbing(fm, rep, 'R2')
+    # the line that reaches the sink is the decorated line: the client hands the formatted text over whole
+    from .common import KeepOnly
+    K.rule_send_metric(fm, KeepOnly(rep, ('/emits-the-metric-text',), 'R2s'))
     K.rule_container_override(fm, rep, 'R3')
     K.rule_incr_decr(fm, rep, 'R4')
     K.rule_plain_forms(fm, rep, 'R4b')
